@@ -100,6 +100,33 @@ impl Read for ChunkReader<'_> {
 
 /// Write `pieces` with one `write_all` each (optionally `flush` after each), finish.
 fn encode_run(pieces: &[&[u8]], flush: bool, sink_limit: usize) -> Result<Vec<u8>, String> {
+    if sink_limit == VECTORED_WRITE {
+        // all pieces handed to `write_vectored` together (a method of `Write` an implementation may provide itself),
+        // called again with what it did not take
+        let mut enc = Base64Encoder::new(Sink { out: Vec::with_capacity(16), limit: usize::MAX });
+        let mut rest: Vec<&[u8]> = pieces.to_vec();
+        let mut budget = 4 * pieces.iter().map(|p| p.len() + 1).sum::<usize>() + 16;
+        while rest.iter().any(|p| !p.is_empty()) {
+            budget -= 1;
+            if budget == 0 {
+                return Err("write_vectored makes no progress".into());
+            }
+            let slices: Vec<std::io::IoSlice<'_>> = rest.iter().map(|p| std::io::IoSlice::new(p)).collect();
+            let mut n = enc.write_vectored(&slices).map_err(|e| format!("write_vectored failed: {e}"))?;
+            if n == 0 {
+                return Err("write_vectored returned 0 for non-empty input".into());
+            }
+            for p in rest.iter_mut() {
+                let take = n.min(p.len());
+                *p = &p[take..];
+                n -= take;
+            }
+            if n > 0 {
+                return Err("write_vectored reports more bytes than it was given".into());
+            }
+        }
+        return Ok(enc.finish().map_err(|e| format!("finish failed: {e}"))?.out);
+    }
     let mut enc = Base64Encoder::new(Sink { out: Vec::with_capacity(16), limit: sink_limit });
     for p in pieces {
         enc.write_all(p).map_err(|e| format!("write failed: {e}"))?;
@@ -127,7 +154,7 @@ struct DecOut {
 /// Read the decoder to the end with destination sizes `dsts` (cyclic).
 fn decode_run(text: &[u8], chunks: &[usize], cyclic: bool, dsts: &[usize]) -> DecOut {
     let mut dec = Base64Decoder::new(ChunkReader::new(text, chunks, cyclic));
-    let cap = dsts.iter().copied().filter(|d| *d < VECTORED).max().unwrap_or(1).max(1);
+    let cap = dsts.iter().copied().filter(|d| *d < TO_STRING).max().unwrap_or(1).max(1);
     let mut buf = vec![0xAAu8; cap];
     let mut out = DecOut { bytes: Vec::with_capacity(text.len()), end: End::Eof, contract: vec![] };
     let max_iters = 4 * text.len() + 64;
@@ -143,6 +170,20 @@ fn decode_run(text: &[u8], chunks: &[usize], cyclic: bool, dsts: &[usize]) -> De
             // the rest through `read_to_end` (a method of `Read` an implementation may provide itself)
             match dec.read_to_end(&mut out.bytes) {
                 Ok(_) => break,
+                Err(e) => {
+                    out.end = End::Error(e.to_string());
+                    return out;
+                }
+            }
+        }
+        if d == TO_STRING {
+            // the rest through `read_to_string` (valid only for payloads that are UTF-8 text)
+            let mut text = String::new();
+            match dec.read_to_string(&mut text) {
+                Ok(_) => {
+                    out.bytes.extend_from_slice(text.as_bytes());
+                    break;
+                }
                 Err(e) => {
                     out.end = End::Error(e.to_string());
                     return out;
@@ -304,8 +345,12 @@ const CYCLIC: &[&[usize]] = &[
     // schedules with interrupted reads (0)
     &[1, 0], &[2, 0], &[3, 0, 1], &[0, 4], &[1, 0, 0, 1], &[2, 0, 2, 0, 64],
 ];
+/// sink "limit" meaning: the writes are handed to one `write_vectored` call (unlimited sink)
+const VECTORED_WRITE: usize = usize::MAX - 1;
 /// destination "size" meaning: read everything that is left with `read_to_end`
 const REST: usize = usize::MAX;
+/// destination "size" meaning: read everything that is left with `read_to_string`
+const TO_STRING: usize = usize::MAX - 2;
 /// destination "size" meaning: one `read_vectored` call with buffers of 2 and 3 bytes
 const VECTORED: usize = usize::MAX - 1;
 const DSTS: &[&[usize]] = &[
@@ -459,7 +504,7 @@ pub fn run(ctx: &Ctx) -> Result<Report, String> {
         (0..masks).into_par_iter().for_each(|mask| {
             let parts = cuts_from_mask(n, mask);
             let pieces = crate::engine::util::split_by(&data, &parts);
-            let variants: &[(bool, usize)] = if n <= 10 { &[(false, usize::MAX), (true, usize::MAX), (false, 1)] } else { &[(false, usize::MAX)] };
+            let variants: &[(bool, usize)] = if n <= 10 { &[(false, usize::MAX), (true, usize::MAX), (false, 1), (false, VECTORED_WRITE)] } else { &[(false, usize::MAX), (false, VECTORED_WRITE)] };
             for (flush, limit) in variants {
                 partitions_run.fetch_add(1, Ordering::Relaxed);
                 if let Some((kind, detail)) = encode_check(&pieces, *flush, *limit) {
@@ -479,9 +524,11 @@ pub fn run(ctx: &Ctx) -> Result<Report, String> {
                             p2.push(&[]);
                         }
                     }
-                    partitions_run.fetch_add(1, Ordering::Relaxed);
-                    if let Some((kind, detail)) = encode_check(&p2, false, usize::MAX) {
-                        viol.add(format!("enc:partitions:{kind}"), format!("{n} bytes written as {:?} with empty writes: {detail}", parts), enc_witness(&p2, false, usize::MAX));
+                    for limit in [usize::MAX, VECTORED_WRITE] {
+                        partitions_run.fetch_add(1, Ordering::Relaxed);
+                        if let Some((kind, detail)) = encode_check(&p2, false, limit) {
+                            viol.add(format!("enc:partitions:{kind}"), format!("{n} bytes written as {:?} with empty writes{}: {detail}", parts, if limit == VECTORED_WRITE { " (one write_vectored call)" } else { "" }), enc_witness(&p2, false, limit));
+                        }
                     }
                 }
             }
@@ -535,6 +582,43 @@ pub fn run(ctx: &Ctx) -> Result<Report, String> {
     sizes.insert("encoder_write_partitions".into(), json!(partitions_run.load(Ordering::Relaxed)));
     sizes.insert("encoder_all_partitions_up_to_len".into(), json!(full_part_len));
     lap("encoder partitions");
+
+    // ---- D0: payloads that are UTF-8 text, read with `read_to_string` (from the start and after one small read);
+    // multi-byte characters at every offset modulo the decoder's internal buffer
+    let d0 = AtomicU64::new(0);
+    (0..=260usize).into_par_iter().for_each(|n| {
+        for phase in 0..4usize {
+            let pattern = ['a', '\u{e9}', '\u{20ac}', '\u{1f600}', 'b', '\u{44f}'];
+            let mut s = String::new();
+            let mut k = phase;
+            while s.len() < n {
+                s.push(pattern[k % pattern.len()]);
+                k += 1;
+            }
+            let data = s.as_bytes();
+            let text = b64::encode(data);
+            for chunks in [&[64usize][..], &[1], &[3, 0, 1]] {
+                for dsts in [&[TO_STRING][..], &[1, TO_STRING], &[5, TO_STRING]] {
+                    // the small read may end inside a character: what is left is then not valid UTF-8 on its own
+                    let lead: usize = dsts[..dsts.len() - 1].iter().sum();
+                    if lead > 0 && (lead >= data.len() || !s.is_char_boundary(lead)) {
+                        continue;
+                    }
+                    d0.fetch_add(1, Ordering::Relaxed);
+                    let (problems, _) = decode_check(&text, chunks, true, dsts, Expect::Bytes(data));
+                    for (kind, detail) in problems {
+                        viol.add(
+                            format!("dec:text:{kind}"),
+                            format!("{} bytes of UTF-8 text, reader chunks {:?} (cyclic), destination {:?} (the last one = read_to_string): {detail}", data.len(), chunks, dsts),
+                            dec_witness(&text, chunks, true, dsts),
+                        );
+                    }
+                }
+            }
+        }
+    });
+    c.dec_runs.fetch_add(d0.load(Ordering::Relaxed), Ordering::Relaxed);
+    sizes.insert("decoder_text_payloads_read_to_string".into(), json!(d0.load(Ordering::Relaxed)));
 
     // ---- D1: valid encodings, cyclic schedules x destination sizes -------------------------
     let d1 = AtomicU64::new(0);
@@ -874,7 +958,7 @@ pub fn replay(w: &Value) -> Result<(bool, String), String> {
                 all.len(),
                 hex(&all),
                 writes.iter().map(|v| v.len()).collect::<Vec<_>>(),
-                if limit == usize::MAX { "all".to_string() } else { limit.to_string() },
+                if limit == usize::MAX { "all".to_string() } else if limit == VECTORED_WRITE { "all (the writes are one write_vectored call)".to_string() } else { limit.to_string() },
                 String::from_utf8_lossy(&b64::encode(&all))
             );
             Ok(match encode_check(&pieces, flush, limit) {
